@@ -591,3 +591,57 @@ pub fn replay_file(fam: &Family, path: &str) -> i32 {
         }
     }
 }
+
+/// `essim digest <PROP> <n> <stride>`: run the first `n` cases of every batch of the quick
+/// plan in this process, visiting them in an order determined by `stride`, and print a
+/// digest of everything observable about each case. Two processes with different strides
+/// must print the same digest: cases are independent of each other, of the visiting order
+/// and of the process (determinism proof, see tools/selftest.sh).
+pub fn digest(fam: &Family, prop: &str, n: u64, stride: u64) -> i32 {
+    let seed = verif_seed();
+    let plan = (fam.plan)(prop, "quick");
+    let mut rows: Vec<(String, u64, u64)> = Vec::new();
+    for b in &plan {
+        let m = n.min(b.cases);
+        if m == 0 {
+            continue;
+        }
+        // a permutation of 0..m: i -> (i * stride') mod m with stride' coprime to m
+        let mut st = stride.max(1);
+        while gcd(st, m) != 1 {
+            st += 1;
+        }
+        for i in 0..m {
+            let case = (i * st) % m;
+            let rs = case_seed(seed, prop, &b.name, case);
+            crate::c06::CASE_INDEX.with(|c| c.set(case));
+            let co = (fam.run_case)(prop, &b.name, rs);
+            let mut h = label(&format!(
+                "{:?}{:?}{:?}{}",
+                co.findings.iter().map(|(f, _)| (&f.class, &f.message)).collect::<Vec<_>>(),
+                co.notes,
+                co.outcome_hash,
+                co.shape_hash
+            ));
+            for inf in &co.infos {
+                h = derive(h, &[inf.steps, inf.context_switches, inf.order_hash, inf.event_hash, inf.ops, inf.reads]);
+            }
+            rows.push((b.name.clone(), case, h));
+        }
+    }
+    rows.sort();
+    let mut d = 0u64;
+    for (b, c, h) in &rows {
+        d = derive(d, &[label(b), *c, *h]);
+    }
+    println!("digest={d:016x} cases={}", rows.len());
+    0
+}
+
+fn gcd(a: u64, b: u64) -> u64 {
+    if b == 0 {
+        a
+    } else {
+        gcd(b, a % b)
+    }
+}
